@@ -12,8 +12,9 @@ theorem hinv_move {m : Nat} {s t : State} (hI : HInv m s) (i : Nat) (x : Caller)
     (hmax : t.max = s.max) (htot : t.total = s.total)
     (hconns : t.conns.map (·.dead) = s.conns.map (·.dead))
     (hrt : nReserved t = nReserved s) (hxr : x.pc ≠ .reserved) (hpr : p ≠ .reserved)
+    (hcl : t.closed = s.closed)
     (dr : Nat → Nat)
-    (hdr : ∀ (c : Nat) (cn : Conn), s.conns[c]? = some cn → cn.dead = false → dr c = 0)
+    (hdr : s.closed = false → ∀ (c : Nat) (cn : Conn), s.conns[c]? = some cn → cn.dead = false → dr c = 0)
     (hh : ∀ c, holders t c + (if heldBy p = some c then 1 else 0) + dr c
       = holders s c + (if heldBy x.pc = some c then 1 else 0)) :
     HInv m (setPc t i x p) := by
@@ -21,15 +22,15 @@ theorem hinv_move {m : Nat} {s t : State} (hI : HInv m s) (i : Nat) (x : Caller)
     have := nReserved_setPc t i x p hx
     simp [hxr, hpr] at this
     omega
-  apply hinv_of_le (s' := setPc t i x p) hI hmax htot hconns hres
+  apply hinv_of_le (s' := setPc t i x p) hI hmax htot hconns hres hcl
   · intro c
     have e := holders_setPc t i x p hx c
     have := hh c
     omega
-  · intro c cn hcn hd
+  · intro hc c cn hcn hd
     have e := holders_setPc t i x p hx c
     have := hh c
-    have := hdr c cn hcn hd
+    have := hdr hc c cn hcn hd
     omega
 
 theorem held_none_start (c : Nat) : (if heldBy PC.start = some c then 1 else 0) = (0 : Nat) := by simp [heldBy]
@@ -54,15 +55,15 @@ theorem isDead_true {s : State} {d : Nat} (h : isDead s d = true) (cn : Conn) (h
 theorem hinv_handOut {m : Nat} {cfg : Cfg} (hg : cfg.handoutChecksDead = true) {s t : State}
     (hI : HInv m s) (i : Nat) (x : Caller) (d : Nat) (hx : t.callers[i]? = some x)
     (hmax : t.max = s.max) (htot : t.total = s.total) (hconns : t.conns = s.conns)
-    (hrt : nReserved t = nReserved s) (hxr : x.pc ≠ .reserved)
+    (hrt : nReserved t = nReserved s) (hxr : x.pc ≠ .reserved) (hcl : t.closed = s.closed)
     (hh : ∀ c, holders t c + (if d = c then 1 else 0)
       = holders s c + (if heldBy x.pc = some c then 1 else 0)) :
     HInv m (handOut cfg t i x d) := by
   unfold handOut
   by_cases hd : isDead t d = true
   · simp only [hg, hd, and_self, if_true]
-    apply hinv_move hI i x .start hx hmax htot (by rw [hconns]) hrt hxr (by simp) (fun c => if d = c then 1 else 0)
-    · intro c cn hcn hdd
+    apply hinv_move hI i x .start hx hmax htot (by rw [hconns]) hrt hxr (by simp) hcl (fun c => if d = c then 1 else 0)
+    · intro _ c cn hcn hdd
       by_cases hdc : d = c
       · subst hdc
         have := isDead_true hd cn (by rw [hconns]; exact hcn)
@@ -74,8 +75,8 @@ theorem hinv_handOut {m : Nat} {cfg : Cfg} (hg : cfg.handoutChecksDead = true) {
       omega
   · have hd' : isDead t d = false := by simpa using hd
     simp only [hd', Bool.false_eq_true, and_false, if_false]
-    apply hinv_move hI i x (.using d) hx hmax htot (by rw [hconns]) hrt hxr (by simp) (fun _ => 0)
-    · intro _ _ _ _; rfl
+    apply hinv_move hI i x (.using d) hx hmax htot (by rw [hconns]) hrt hxr (by simp) hcl (fun _ => 0)
+    · intro _ _ _ _ _; rfl
     · intro c
       have := hh c
       simp only [held_using]
